@@ -33,8 +33,15 @@ def report_devs(ctx, devs, label, how):
     by = {}
     for d in devs:
         by.setdefault(d["sig"], []).append(d)
-    for sig, ds in sorted(by.items()):
-        name = "%s-%s.json" % (label, "".join(ch if ch.isalnum() else "_" for ch in sig)[:90])
+    known = {k["signature"] for k in ctx.known_findings()}
+    for k, (sig, ds) in enumerate(sorted(by.items())):
+        if k >= 12 and sig not in known:
+            # one broken rule shows up at many sites: twelve artefacts are enough to fail the check and to look at
+            ctx.cov["signatures_not_reported_individually"] = ctx.cov.get("signatures_not_reported_individually", 0) + 1
+            continue
+        slug = "".join(ch if ch.isalnum() else "_" for ch in sig)[:90]
+        # a known finding keeps ONE artefact (overwritten), a violation gets one per place it was observed
+        name = ("known-%s.json" % slug) if sig in known else ("%s-%s.json" % (label, slug))
         rp = ctx.save_replay(name, {"signature": sig, "how": how, "count": len(ds), "first_offending_index": ds[0].get("index"),
                                     "observations": ds[:5],
                                     "rerun": "bin/check C11 --replay <this file>  (decodes observations[0].input with the real types)"})
@@ -205,6 +212,14 @@ def idbind_binding_demo(ctx, binp, tables):
 
 # ------------------------------------------------------------------------------------------------- --replay
 def rerun_artifact(ctx, binp, path):
+    # a --replay run must not replace the evidence of the last full run: put it back after the runner has written its own
+    import atexit
+    evp = os.path.join(os.path.dirname(os.path.dirname(os.path.abspath(__file__))), "evidence", ctx.prop + ".json")
+    if os.path.exists(evp):
+        keep = open(evp).read()
+        atexit.register(lambda: open(evp, "w").write(keep))
+    ctx.level = "other"
+    ctx.cov["explanation"] = "re-run of the inputs stored in one replay artefact on the real decoders (no model checking in this mode)"
     art = json.load(open(path))
     obs = art.get("observations") or []
     n = 0
@@ -216,9 +231,10 @@ def rerun_artifact(ctx, binp, path):
         if rc != 0:
             raise Infra("replay of artefact failed: " + o[-800:])
         res = json.load(open(os.path.join(out, "result.json")))
-        ctx.log("replayed %s input (%d bytes): %s" % (ob["kind"], len(ob["input"]) // 2, res["samples"][0]))
+        smp = dict(res["samples"][0], reenc=res["samples"][0]["reenc"][:48] + "...")
+        ctx.log("replayed %s input (%d bytes): %s" % (ob["kind"], len(ob["input"]) // 2, smp))
         report_devs(ctx, res["deviations"], "rerun", {"mode": "one", "artifact": os.path.basename(path)})
-        ctx.sample(res["samples"][0])
+        ctx.sample(smp)
         n += 1
     if n == 0:
         raise Infra("artefact %s has no re-runnable observation (id-binding artefacts: re-run the check with the same VERIF_SEED)" % path)
